@@ -86,4 +86,8 @@ End Mon.
 Definition holds_b (i : input) (o : output) : bool :=
   let p := fst i in
   let free := InterpRun.run (p, map j_tick (snd i)) in           (* the model's run of the same ticks without injections *)
-  walk p (plain_snippets p) (view0 p) [] (snd i) free o.
+  (* hypotheses of the scope theorem (props/C14.v), evaluated on every case: a well-formed node table, injected roots
+     without parent *)
+  wf_b p
+  && forallb (fun j => forallb (fun r => match n_parent (nd p r) with None => true | Some _ => false end) (j_inject j)) (snd i)
+  && walk p (plain_snippets p) (view0 p) [] (snd i) free o.
